@@ -6,7 +6,7 @@ PROP = "C10"
 LEVEL = "other"
 H = "vf.contracts.c_codegen."
 G = "a816.parse.codegen."
-FUNCTIONS = [G + "generate_if", G + "generate_for", G + "_code_gen", G + "generate_label", G + "generate_db"]
+FUNCTIONS = [G + "generate_if", G + "generate_for", G + "_code_gen", G + "generate_label", G + "generate_db", G + "generate_assign"]
 MIN_OBLIGATIONS = 40
 EXPLANATION = ("generate_if is executed on the real code for every condition value (symbolic integer: zero / non-zero / negative; undefined name), with "
                "and without else, and must return exactly the selected block's statements without opening a scope.  generate_for is executed for "
@@ -32,6 +32,18 @@ def shape_if(defined, with_else):
             S.root_symbols(B, res, {"c": v})
         node = S.ast_if(B, S.expr_ident(B, "c"), [S.ast_label(B, "t1"), S.ast_label(B, "t2")], [S.ast_label(B, "e1")] if with_else else None)
         return {"node": node, "resolver": res, "tok": S.tok(B, "KEYWORD", "if"), "v": v, "defined": defined, "then_names": B.list(["t1", "t2"]),
+                "else_names": B.list(["e1"] if with_else else [])}
+    return sh
+
+
+def shape_if_compound_undefined(left, op, right, with_else):
+    """a condition with more than one term, one of them an undefined name `u` (`d` is defined, any value): false as a whole, whatever the rest would evaluate to"""
+    def sh(B):
+        res = S.resolver(B)
+        v = B.int("v")
+        S.root_symbols(B, res, {"d": v})
+        node = S.ast_if(B, S.expr_binop(B, left, op, right), [S.ast_label(B, "t1"), S.ast_label(B, "t2")], [S.ast_label(B, "e1")] if with_else else None)
+        return {"node": node, "resolver": res, "tok": S.tok(B, "KEYWORD", "if"), "v": v, "defined": False, "then_names": B.list(["t1", "t2"]),
                 "else_names": B.list(["e1"] if with_else else [])}
     return sh
 
@@ -68,11 +80,18 @@ def cases(E):
         for with_else in (True, False):
             cs.append(Case(H + "generate_if_contract", f"condition {'symbolic value' if defined else 'undefined name'}, else={with_else}", shape_if(defined, with_else),
                            target=[G + "generate_if"]))
+    for left, op, right in ((("id", "u"), "+", ("num", 1)), (("num", 1), "-", ("id", "u")), (("id", "d"), "+", ("id", "u")), (("id", "u"), "|", ("id", "d")), (("num", 1), "<<", ("id", "u"))):
+        for with_else in (True, False):
+            cs.append(Case(H + "generate_if_contract", f"condition {left[1]} {op} {right[1]} with u undefined, else={with_else}", shape_if_compound_undefined(left, op, right, with_else),
+                           target=[G + "generate_if"]))
     for a, b in ((0, 0), (0, 1), (0, 3), (1, 4), (2, 2), (3, 1), (0, 4)):
         for sym in (False, True):
             cs.append(Case(H + "generate_for_contract", f"{a}..{b}{' (bounds from symbols)' if sym else ''}", shape_for(a, b, sym), target=[G + "generate_for"]))
     from vf.props import expansion
     cs += expansion.c10_cases(E)
+    # "each iteration in its own scope": what the body assigns with `:=` is bound in the iteration's scope, not in the scope the loop was written in
+    from vf.props import C08 as c08
+    cs += c08.assign_frame_cases(E)
     return cs
 
 
